@@ -3,7 +3,9 @@ tree); attribute writes/reads, constructor keywords and structural calls interle
 import anytree
 from anytree import AnyNode, Node, SymlinkNode, NodeMixin, SymlinkNodeMixin
 
-SKIP = ("_NodeMixin__parent", "_NodeMixin__children", "target")
+def local(key):
+    """a link's own entries: the mixin's (name-mangled) link attributes and `target`"""
+    return key.startswith("_NodeMixin__") or key.startswith("_LightNodeMixin__") or key == "target"
 
 
 class UserLink(SymlinkNodeMixin):
@@ -82,7 +84,7 @@ def impl(case):
                 except AttributeError:
                     out.append("AttributeError")
             elif k == "dump":
-                out.append([[[a, vals.tok(b)] for a, b in o.__dict__.items() if a not in SKIP] for o in objs])
+                out.append([[[a, vals.tok(b)] for a, b in o.__dict__.items() if not local(a)] for o in objs])
             elif k in ("sp", "sc", "dc"):
                 res = "ok"
                 try:
